@@ -50,14 +50,19 @@ def configs():
         for wm, ws in (("*", "?"), ("%", "_"), (".*", "."), (None, None)):
             for q in ('"', "'", ""):
                 for ae in ("", ":", "E:"):
-                    for flt in ("", "&"):
+                    for flt in ("", "&", "Q", ":*"):  # Q = the quote character itself; ":*" overlaps add_escaped and a wildcard token
                         for qp in ("always", "pattern"):
                             if q == "" and qp == "pattern":
                                 continue
                             a = ae.replace("E", esc or "")
                             if esc is None and ae == "E:":
                                 continue
-                            out.append((esc, wm, ws, q, a, flt, qp))
+                            f = flt.replace("Q", q)
+                            if flt == "Q" and not q:
+                                continue
+                            if flt in ("Q", ":*") and qp == "pattern":
+                                continue
+                            out.append((esc, wm, ws, q, a, f, qp))
     return out
 
 
